@@ -468,6 +468,9 @@ class ArgumentParser(ParserDeprecations, ActionsContainer, ArgumentLinking, argp
         except (TypeError, KeyError) as ex:
             self.error(str(ex), ex)
 
+        finally:
+            self.__dict__.pop("print_config", None)
+
         self._logger.debug("Parsed command line arguments: %s", args)
         return parsed_cfg
 
